@@ -622,6 +622,23 @@ func c07Special(st *fw.Stats, add func(sig, msg string)) {
 			run("routes GET /files/{id:\\d+}, GET+POST /assets/{name}, GET /files/{a}/{b}, then StaticDir(/files) and StaticFiles(/assets, css|js) on the temp directory (no such files exist there)", mountDefs, o, seq)
 		}
 	}
+	// (h) several routes registered under ONE name (names are labels, not keys of the match): the cached answer is still
+	// the route that matched
+	extra = func(r *rux.Router) {
+		r.AddNamed("user", "/users/{id}", func(c *rux.Context) { c.WriteString("show:" + c.Param("id")) }, "GET")
+		r.AddNamed("user", "/users/{id}", func(c *rux.Context) { c.WriteString("update:" + c.Param("id")) }, "POST")
+		r.GET("/items/{id}", func(c *rux.Context) { c.WriteString("item:" + c.Param("id")) }).NamedTo("user", r)
+		rux.NewNamedRoute("user", "/things/{id}", func(c *rux.Context) { c.WriteString("thing:" + c.Param("id")) }, "GET", "DELETE").AttachTo(r)
+	}
+	for _, seq := range [][][3]string{
+		{{"GET", "/users/7", ""}, {"GET", "/users/7", ""}, {"POST", "/users/7", ""}, {"POST", "/users/7", ""}, {"GET", "/users/7", ""}},
+		{{"POST", "/users/7", ""}, {"GET", "/users/7", ""}, {"GET", "/users/7", ""}, {"GET", "/items/7", ""}, {"GET", "/items/7", ""}, {"GET", "/users/7", ""}},
+		{{"GET", "/things/1", ""}, {"GET", "/items/1", ""}, {"GET", "/users/1", ""}, {"GET", "/things/1", ""}, {"GET", "/items/1", ""}, {"GET", "/users/1", ""}, {"DELETE", "/things/1", ""}, {"DELETE", "/things/1", ""}},
+	} {
+		for _, o := range []func(bool) []func(*rux.Router){plainOpts, naOpts} {
+			run("route GET /zz/{q}, then four routes all named \"user\": GET /users/{id}, POST /users/{id} (AddNamed), GET /items/{id} (NamedTo), GET+DELETE /things/{id} (NewNamedRoute + AttachTo)", []refmodel.RouteDef{{Path: "/zz/{q}", Methods: []string{"GET"}}}, o, seq)
+		}
+	}
 	extra = nil
 	// (f) rux's debug mode (tracing output) must not make a cached answer differ from an uncached one
 	func() {
@@ -735,7 +752,7 @@ var c07Spec = fw.Spec[c07Case]{
 	Level:      "model_checking",
 	StateGraph: true,
 	Rule: "explicit-state search to fix-point per configuration (13 route tables x {HandleMethodNotAllowed} x {HandleFallbackRoute} x {StrictLastSlash} x capacities 0..3(4)): state = cache content in recency order with route and params per entry (verif hook); " +
-		"all histories of length <=2 (thorough 3) without state merging, then every reachable state x every request of the alphabet (13 / 16 requests: hits, misses, evictions, HEAD->GET, 405 probes, fallback, 404) executed on the real caching router via Match and ServeHTTP and compared with the non-caching twin; for capacity 2 also next to a sibling router built from the very same option values; for capacity 2 (thorough 1 and 3) the graph is explored again with the registration of the table's last route as one more action, enabled once at any point; plus plain / percent-encoded URL sequences under UseEncodedPath, matched and unmatched paths of 230..290 bytes with HandleMethodNotAllowed, pairs of cache keys that collide under six common 32-bit string hashes, requests with 9 method strings outside the supported nine right after the path was cached for GET / POST / OPTIONS, URLs of named routes built with BuildURL between the requests, repeated requests while rux's debug mode is on, static mounts registered after dynamic routes that overlap them, and pairs of request paths of every length 10..309 bytes that differ only in their last 1-3 bytes, requested alternately under four methods; non-trivial = newly reached distinct cache state",
+		"all histories of length <=2 (thorough 3) without state merging, then every reachable state x every request of the alphabet (13 / 16 requests: hits, misses, evictions, HEAD->GET, 405 probes, fallback, 404) executed on the real caching router via Match and ServeHTTP and compared with the non-caching twin; for capacity 2 also next to a sibling router built from the very same option values; for capacity 2 (thorough 1 and 3) the graph is explored again with the registration of the table's last route as one more action, enabled once at any point; plus plain / percent-encoded URL sequences under UseEncodedPath, matched and unmatched paths of 230..290 bytes with HandleMethodNotAllowed, pairs of cache keys that collide under six common 32-bit string hashes, requests with 9 method strings outside the supported nine right after the path was cached for GET / POST / OPTIONS, URLs of named routes built with BuildURL between the requests, repeated requests while rux's debug mode is on, static mounts registered after dynamic routes that overlap them, four routes registered under one name, and pairs of request paths of every length 10..309 bytes that differ only in their last 1-3 bytes, requested alternately under four methods; non-trivial = newly reached distinct cache state",
 	Assume: []string{
 		"canonical state = cache content only: tables and options are frozen after registration and contexts are reset per request (C10)",
 		"successor = replay of the shortest history on a fresh router plus one request",
